@@ -7,6 +7,7 @@ import (
 	"net"
 	"net/http"
 	"os"
+	"path/filepath"
 	"time"
 
 	"github.com/AdguardTeam/golibs/ioutil"
@@ -55,6 +56,14 @@ func glProcessCookie(r *http.Request) bool {
 }
 
 func glCheckToken(sess string) bool {
+	if filepath.Base(sess) != sess {
+		// The token is the name of a file, never a path: don't let the cookie
+		// value point outside of the token files.
+		log.Error("glinet: invalid token name")
+
+		return false
+	}
+
 	tokenName := glFilePrefix + sess
 	_, err := os.Stat(tokenName)
 	if err != nil {
